@@ -170,6 +170,9 @@ class Mod:
                 for s2 in st.body:
                     if isinstance(s2, ast.FunctionDef):
                         c.methods[s2.name] = Func(self, c, s2)
+                    elif isinstance(s2, ast.Assign) and len(s2.targets) == 1 and isinstance(s2.targets[0], ast.Name) and isinstance(s2.value, ast.Name) \
+                            and s2.value.id in c.methods:
+                        c.methods[s2.targets[0].id] = c.methods[s2.value.id]        # `strategy = get_best_strategies`: a second name of the method
             elif isinstance(st, ast.Assign) and len(st.targets) == 1 and isinstance(st.targets[0], ast.Name):
                 self.consts[st.targets[0].id] = st.value
             elif isinstance(st, ast.AnnAssign) and isinstance(st.target, ast.Name) and st.value is not None:
@@ -187,6 +190,209 @@ class Mod:
                     self.imports[al.asname or al.name] = (al.name, None)
 
 
+def _structural_tuples(mods):
+    """Named tuples are tuples.  A maintainer who gives the transition pairs names (`class Move(NamedTuple): action; target`,
+    `Branch = namedtuple("Branch", "probability target")`) changes how a pair is *spelled* - `t.target` for `t[1]`,
+    `Move(a, t)` for `(a, t)` - not what it is: unpacking, indexing and equality with plain pairs keep working.  Every module is
+    rewritten to the positional spelling the rules know:
+        x.<field>                ->  x[<index>]        for a field name that has ONE index over all named-tuple types, is never
+                                                        stored as an attribute (`o.f = ...`) and names no method / class attribute
+        NT(a, b) / NT(f=a, g=b)  ->  (a, b)             (missing fields: their defaults; otherwise the call is left alone)
+        NT(*p) / NT._make(p)     ->  tuple(p)
+    Methods defined on a named-tuple class stay methods (`self.f` inside them is rewritten like any other read)."""
+    import copy as _copy
+    nts = {}          # class name -> (fields, defaults)
+    def _nt_call(e):
+        if not (isinstance(e, ast.Call) and len(e.args) >= 2):
+            return None
+        fn = e.func
+        nm = fn.id if isinstance(fn, ast.Name) else (fn.attr if isinstance(fn, ast.Attribute) else None)
+        if nm != "namedtuple":
+            return None
+        spec = e.args[1]
+        if isinstance(spec, ast.Constant) and isinstance(spec.value, str):
+            return spec.value.replace(",", " ").split()
+        if isinstance(spec, (ast.List, ast.Tuple)) and all(isinstance(x, ast.Constant) and isinstance(x.value, str) for x in spec.elts):
+            return [x.value for x in spec.elts]
+        return None
+    for m in mods.values():
+        for st in m.tree.body:
+            # class Result(namedtuple("Result", [...])): methods on top of the tuple (no __new__ / __init__ of its own)
+            if isinstance(st, ast.ClassDef) and len(st.bases) == 1 and _nt_call(st.bases[0]) \
+                    and not any(isinstance(s2, ast.FunctionDef) and s2.name in ("__new__", "__init__", "__getitem__", "__iter__", "__eq__", "__len__") for s2 in st.body):
+                nts[st.name] = (_nt_call(st.bases[0]), {})
+                continue
+            if isinstance(st, ast.ClassDef) and any((isinstance(b, ast.Name) and b.id == "NamedTuple") or (isinstance(b, ast.Attribute) and b.attr == "NamedTuple") for b in st.bases):
+                fields, defaults = [], {}
+                for s2 in st.body:
+                    if isinstance(s2, ast.AnnAssign) and isinstance(s2.target, ast.Name):
+                        fields.append(s2.target.id)
+                        if s2.value is not None:
+                            defaults[s2.target.id] = s2.value
+                if fields:
+                    nts[st.name] = (fields, defaults)
+            elif isinstance(st, ast.Assign) and len(st.targets) == 1 and isinstance(st.targets[0], ast.Name) and isinstance(st.value, ast.Call):
+                fn = st.value.func
+                nm = fn.id if isinstance(fn, ast.Name) else (fn.attr if isinstance(fn, ast.Attribute) else None)
+                if nm == "namedtuple" and len(st.value.args) >= 2:
+                    spec = st.value.args[1]
+                    fields = None
+                    if isinstance(spec, ast.Constant) and isinstance(spec.value, str):
+                        fields = spec.value.replace(",", " ").split()
+                    elif isinstance(spec, (ast.List, ast.Tuple)) and all(isinstance(e, ast.Constant) and isinstance(e.value, str) for e in spec.elts):
+                        fields = [e.value for e in spec.elts]
+                    if fields:
+                        nts[st.targets[0].id] = (fields, {})
+    if not nts:
+        return
+    index = {}
+    for fields, _ in nts.values():
+        for i, f in enumerate(fields):
+            index.setdefault(f, set()).add(i)
+    taken = set()         # names that are (also) ordinary attributes / methods somewhere
+    for m in mods.values():
+        for n in ast.walk(m.tree):
+            if isinstance(n, ast.Attribute) and isinstance(n.ctx, (ast.Store, ast.Del)):
+                taken.add(n.attr)
+            if isinstance(n, ast.ClassDef):
+                for s2 in n.body:
+                    if isinstance(s2, ast.FunctionDef):
+                        taken.add(s2.name)
+                    if n.name not in nts:
+                        if isinstance(s2, ast.Assign):
+                            taken.update(t.id for t in s2.targets if isinstance(t, ast.Name))
+                        elif isinstance(s2, ast.AnnAssign) and isinstance(s2.target, ast.Name):
+                            taken.add(s2.target.id)
+    # ... and names read off something that is certainly not a named tuple: a module (`random.seed`), the namespace argparse
+    # hands back (`parsed_args.width`), `self` inside an ordinary class
+    for m in mods.values():
+        modnames = set()
+        for n in ast.walk(m.tree):
+            if isinstance(n, ast.Import):
+                modnames.update((a.asname or a.name).split(".")[0] for a in n.names)
+        spaces = set()
+        for n in ast.walk(m.tree):
+            if isinstance(n, ast.Assign) and isinstance(n.value, ast.Call) and isinstance(n.value.func, ast.Attribute) and n.value.func.attr in ("parse_args", "parse_known_args"):
+                for t in n.targets:
+                    spaces.update(x.id for x in ast.walk(t) if isinstance(x, ast.Name))
+        for cls_ in [c_ for c_ in ast.walk(m.tree) if isinstance(c_, ast.ClassDef)]:
+            for n in ast.walk(cls_):
+                if isinstance(n, ast.Attribute) and isinstance(n.value, ast.Name) and n.value.id in ("self", "cls") and cls_.name not in nts:
+                    taken.add(n.attr)
+        for n in ast.walk(m.tree):
+            if isinstance(n, ast.Attribute) and isinstance(n.value, ast.Name) and (n.value.id in modnames or n.value.id in spaces or "args" in n.value.id.lower()
+                                                                                     or n.value.id in ("parser", "namespace", "ns", "options", "opts")):
+                taken.add(n.attr)
+    fmap = {f: next(iter(ix)) for f, ix in index.items() if len(ix) == 1 and f not in taken}
+
+    class T(ast.NodeTransformer):
+        def visit_Attribute(self, node):
+            self.generic_visit(node)
+            if isinstance(node.ctx, ast.Load) and node.attr in fmap and not (isinstance(node.value, ast.Name) and node.value.id in nts):
+                return ast.copy_location(ast.Subscript(value=node.value, slice=ast.Constant(value=fmap[node.attr]), ctx=ast.Load()), node)
+            return node
+
+        def visit_Call(self, node):
+            self.generic_visit(node)
+            # NT(*pair) / NT._make(pair): the pair as a tuple
+            if isinstance(node.func, ast.Name) and node.func.id in nts and len(node.args) == 1 and isinstance(node.args[0], ast.Starred) and not node.keywords:
+                return ast.copy_location(ast.Call(func=ast.Name(id="tuple", ctx=ast.Load()), args=[node.args[0].value], keywords=[]), node)
+            if isinstance(node.func, ast.Attribute) and node.func.attr == "_make" and isinstance(node.func.value, ast.Name) and node.func.value.id in nts \
+                    and len(node.args) == 1 and not isinstance(node.args[0], ast.Starred) and not node.keywords:
+                return ast.copy_location(ast.Call(func=ast.Name(id="tuple", ctx=ast.Load()), args=[node.args[0]], keywords=[]), node)
+            if isinstance(node.func, ast.Name) and node.func.id in nts and not any(isinstance(a, ast.Starred) for a in node.args) and all(k.arg for k in node.keywords):
+                fields, defaults = nts[node.func.id]
+                vals = dict(zip(fields, node.args))
+                if len(node.args) > len(fields):
+                    return node
+                for k in node.keywords:
+                    if k.arg not in fields or k.arg in vals:
+                        return node
+                    vals[k.arg] = k.value
+                for f in fields:
+                    if f not in vals:
+                        if f in defaults:
+                            vals[f] = _copy.deepcopy(defaults[f])
+                        else:
+                            return node
+                return ast.copy_location(ast.Tuple(elts=[vals[f] for f in fields], ctx=ast.Load()), node)
+            return node
+    # one-line methods of a named-tuple class (`def as_tuple(self): return tuple(self[:8])`): the expression, with the receiver in
+    # place of self, at every call `x.as_tuple()` - when the name belongs to named-tuple classes only and self is read once
+    nt_methods = {}
+    other_methods = set()
+    for m in mods.values():
+        for st in m.tree.body:
+            if isinstance(st, ast.ClassDef):
+                for s2 in st.body:
+                    if isinstance(s2, ast.FunctionDef):
+                        if st.name in nts:
+                            nt_methods.setdefault(s2.name, []).append(s2)
+                        else:
+                            other_methods.add(s2.name)
+    one_liners = {}
+    for name, defs in nt_methods.items():
+        if len(defs) != 1 or name in other_methods or name.startswith("__"):
+            continue
+        fn = defs[0]
+        body = [b for b in fn.body if not (isinstance(b, ast.Expr) and isinstance(b.value, ast.Constant))]
+        a = fn.args
+        if len(body) != 1 or not isinstance(body[0], ast.Return) or body[0].value is None or fn.decorator_list or a.vararg or a.kwarg or a.kwonlyargs \
+                or len(a.posonlyargs + a.args) != 1:
+            continue
+        me = (a.posonlyargs + a.args)[0].arg
+        # module constants of the defining module are written out (the expression moves to other modules)
+        import builtins as _bi
+        owner = next(m for m in mods.values() if any(fn in getattr(c_, "body", []) for c_ in m.tree.body))
+        expr0 = _copy.deepcopy(body[0].value)
+        closed = True
+
+        class K_(ast.NodeTransformer):
+            def visit_Name(self, n):
+                nonlocal closed
+                if n.id == me or hasattr(_bi, n.id):
+                    return n
+                v = owner.consts.get(n.id)
+                if isinstance(v, ast.Constant):
+                    return ast.copy_location(ast.Constant(value=v.value), n)
+                closed = False
+                return n
+        expr0 = K_().visit(expr0)
+        if not closed:
+            continue
+        body = [ast.Return(value=expr0)]
+        uses = [n for n in ast.walk(body[0].value) if isinstance(n, ast.Name) and n.id == me]
+        if len(uses) == 1 and not any(isinstance(n, (ast.Lambda, ast.ListComp, ast.GeneratorExp, ast.SetComp, ast.DictComp, ast.Yield, ast.Await)) for n in ast.walk(body[0].value)):
+            one_liners[name] = (me, body[0].value)
+
+    class M(ast.NodeTransformer):
+        def visit_Call(self, node):
+            self.generic_visit(node)
+            if isinstance(node.func, ast.Attribute) and node.func.attr in one_liners and not node.args and not node.keywords:
+                me, expr = one_liners[node.func.attr]
+                recv = node.func.value
+                new = _copy.deepcopy(expr)
+
+                class S(ast.NodeTransformer):
+                    def visit_Name(self, n):
+                        return recv if n.id == me else n
+                new = S().visit(new)
+                for x in ast.walk(new):
+                    if x is not recv and not any(x is y for y in ast.walk(recv)):
+                        ast.copy_location(x, node)
+                return new
+            return node
+    for m in mods.values():
+        if one_liners:
+            M().visit(m.tree)
+        T().visit(m.tree)
+        ast.fix_missing_locations(m.tree)
+        add_parents(m.tree)
+        m.funcs, m.classes, m.consts, m.imports = {}, {}, {}, {}
+        m._index()
+        m.named_tuples = {k: v[0] for k, v in nts.items()}
+
+
 class Program:
     def __init__(self, repo=None, modules=None):
         self.repo = repo or REPO
@@ -199,6 +405,7 @@ class Program:
                 self.mods[m] = Mod(m, p)
             except SyntaxError as e:
                 raise AnalysisError("module %s does not parse: %s" % (m, e))
+        _structural_tuples(self.mods)
         self.funcs = {}
         self.classes = {}
         for m in self.mods.values():
@@ -287,6 +494,21 @@ class Program:
             if f:
                 return f
         return None
+
+    def exc_is_a(self, name, root="ValueError", _depth=0):
+        """An exception class of the repository (or a builtin one) that derives from `root`: `except root` catches it, a caller
+        that documents `root` gets what it was promised."""
+        import builtins
+        if name == root:
+            return True
+        if _depth > 10 or not isinstance(name, str):
+            return False
+        if name in self.classes:
+            c = self.classes[name]
+            bases = [b.id if isinstance(b, ast.Name) else (b.attr if isinstance(b, ast.Attribute) else None) for b in c.node.bases]
+            return any(self.exc_is_a(b, root, _depth + 1) for b in bases if b)
+        b, r = getattr(builtins, name, None), getattr(builtins, root, None)
+        return isinstance(b, type) and isinstance(r, type) and issubclass(b, r)
 
     def classes_defining(self, meth):
         return [c for c in self.classes.values() if meth in c.methods]
@@ -564,6 +786,53 @@ def _inline_helpers(prog, f, depth=0):
                 call, kind, targets = st.value, "assign", st.targets
             elif isinstance(st, ast.Return) and isinstance(st.value, ast.Call):
                 call, kind = st.value, "return"
+            if call is not None and level < 3 and (callee_of(call) is None or not simple(callee_of(call))):
+                # `return self.run().as_tuple()` / `x = tuple(self.run()[:8])`: the helper call sits on the spine of the value - it is
+                # evaluated first, so it can be taken out into a statement of its own (and expanded there)
+                par, node = None, call
+                while True:
+                    nxt = None
+                    if isinstance(node, ast.Call) and isinstance(node.func, ast.Attribute):
+                        nxt = ("func.value", node.func.value)
+                    elif isinstance(node, ast.Call) and isinstance(node.func, ast.Name) and node.func.id in ("tuple", "list") and len(node.args) == 1 and not node.keywords:
+                        nxt = ("args0", node.args[0])
+                    elif isinstance(node, ast.Subscript):
+                        nxt = ("value", node.value)
+                    if nxt is None:
+                        break
+                    par, node = (node, nxt[0]), nxt[1]
+                    if isinstance(node, ast.Call) and callee_of(node) is not None and simple(callee_of(node)) and callee_of(node).node is not f.node:
+                        counter[0] += 1
+                        tmp = "__spine%d" % counter[0]
+                        st2 = _copy.copy(st)
+                        st2.value = _copy.deepcopy(st.value)
+                        # walk the same path in the copy
+                        path, n0 = [], call
+                        while n0 is not node:
+                            if isinstance(n0, ast.Call) and isinstance(n0.func, ast.Attribute):
+                                path.append("fv"); n0 = n0.func.value
+                            elif isinstance(n0, ast.Call):
+                                path.append("a0"); n0 = n0.args[0]
+                            else:
+                                path.append("v"); n0 = n0.value
+                        c0 = st2.value
+                        for step in path[:-1]:
+                            c0 = c0.func.value if step == "fv" else (c0.args[0] if step == "a0" else c0.value)
+                        nm = ast.copy_location(ast.Name(id=tmp, ctx=ast.Load()), node)
+                        if path[-1] == "fv":
+                            c0.func.value = nm
+                        elif path[-1] == "a0":
+                            c0.args[0] = nm
+                        else:
+                            c0.value = nm
+                        pre_st = ast.copy_location(ast.Assign(targets=[ast.Name(id=tmp, ctx=ast.Store())], value=node), st)
+                        ast.fix_missing_locations(pre_st)
+                        changed[0] = True
+                        out.extend(rewrite([pre_st, st2], level))
+                        call = "done"
+                        break
+                if call == "done":
+                    continue
             if call is not None and level < 3:
                 ex = expand(call, kind, targets, st)
                 if ex is not None:
@@ -573,7 +842,7 @@ def _inline_helpers(prog, f, depth=0):
             if isinstance(st, ast.If):
                 new = ast.If(test=st.test, body=rewrite(st.body, level), orelse=rewrite(st.orelse, level))
                 out.append(ast.copy_location(new, st))
-            elif isinstance(st, (ast.For, ast.While)):
+            elif isinstance(st, (ast.For, ast.While, ast.With)):
                 new = _copy.copy(st)
                 new.body = rewrite(st.body, level)
                 out.append(new)
